@@ -888,7 +888,7 @@ func ruleGR6(c *Ctx) *rule {
 // the unmodified result, else a reason.
 func (c *Ctx) traceToSort(v ssa.Value, depth int) string {
 	// no element stores, no sort/reverse calls on it or on an alias of it
-	if why := c.sliceMutation(v, 3, map[ssa.Value]bool{}); why != "" {
+	if why := c.sliceMutation(v, 3, map[ssa.Value]bool{}, "the run order"); why != "" {
 		return why
 	}
 	switch x := v.(type) {
@@ -947,11 +947,17 @@ func (c *Ctx) traceToSort(v ssa.Value, depth int) string {
 // sliceMutation looks for a place where the elements of slice v (or of a value sharing its backing array: an interface
 // holding it, a conversion, a captured copy, the parameter of a module function it is passed to) are overwritten or
 // re-ordered. It returns "" when there is none.
-func (c *Ctx) sliceMutation(v ssa.Value, depth int, seen map[ssa.Value]bool) string {
+func (c *Ctx) sliceMutation(v ssa.Value, depth int, seen map[ssa.Value]bool, noun string) string {
 	if seen[v] {
 		return ""
 	}
 	seen[v] = true
+	shared := strings.HasSuffix(noun, "\x00shared") // v is a re-slice: it shares the backing array, so append overwrites
+	noun = strings.TrimSuffix(noun, "\x00shared")
+	sub := noun
+	if shared {
+		sub = noun + "\x00shared"
+	}
 	readers := map[string]bool{"Contains": true, "ContainsFunc": true, "Index": true, "IndexFunc": true, "Equal": true, "EqualFunc": true,
 		"Max": true, "MaxFunc": true, "Min": true, "MinFunc": true, "BinarySearch": true, "BinarySearchFunc": true, "IsSorted": true, "IsSortedFunc": true,
 		"Clone": true, "Values": true, "All": true, "Collect": true, "Compare": true, "CompareFunc": true}
@@ -963,11 +969,23 @@ func (c *Ctx) sliceMutation(v ssa.Value, depth int, seen map[ssa.Value]bool) str
 			}
 			for _, rr := range valueReferrers(x) {
 				if st, ok := rr.(*ssa.Store); ok && st.Addr == ssa.Value(x) {
-					return "elements of the run order are overwritten at " + c.ipos(st)
+					return "elements of " + noun + " are overwritten at " + c.ipos(st)
 				}
 			}
+		case *ssa.Slice:
+			// a re-slice shares the backing array: appending to it (the `x[:0]` filter idiom) overwrites the elements
+			if x.X != v {
+				continue
+			}
+			if why := c.sliceMutation(x, depth, seen, noun+"\x00shared"); why != "" {
+				return why
+			}
+		case *ssa.Phi:
+			if why := c.sliceMutation(x, depth, seen, sub); why != "" {
+				return why
+			}
 		case *ssa.MakeInterface, *ssa.ChangeType, *ssa.Convert:
-			if why := c.sliceMutation(x.(ssa.Value), depth, seen); why != "" {
+			if why := c.sliceMutation(x.(ssa.Value), depth, seen, sub); why != "" {
 				return why
 			}
 		case *ssa.Store:
@@ -991,7 +1009,7 @@ func (c *Ctx) sliceMutation(v ssa.Value, depth int, seen map[ssa.Value]bool) str
 			for _, cl := range cells {
 				for _, cr := range valueReferrers(cl) {
 					if u, ok := cr.(*ssa.UnOp); ok && u.Op == token.MUL {
-						if why := c.sliceMutation(u, depth, seen); why != "" {
+						if why := c.sliceMutation(u, depth, seen, sub); why != "" {
 							return why
 						}
 					}
@@ -1001,7 +1019,7 @@ func (c *Ctx) sliceMutation(v ssa.Value, depth int, seen map[ssa.Value]bool) str
 			fn, _ := x.Fn.(*ssa.Function)
 			for i, b := range x.Bindings {
 				if b == v && fn != nil && i < len(fn.FreeVars) {
-					if why := c.sliceMutation(fn.FreeVars[i], depth, seen); why != "" {
+					if why := c.sliceMutation(fn.FreeVars[i], depth, seen, sub); why != "" {
 						return why
 					}
 				}
@@ -1010,13 +1028,24 @@ func (c *Ctx) sliceMutation(v ssa.Value, depth int, seen map[ssa.Value]bool) str
 			com := x.Common()
 			if bi, ok := com.Value.(*ssa.Builtin); ok {
 				if bi.Name() == "copy" && len(com.Args) == 2 && com.Args[0] == v {
-					return "the run order is overwritten by copy at " + c.ipos(x)
+					return noun + " is overwritten by copy at " + c.ipos(x)
+				}
+				if bi.Name() == "append" && len(com.Args) > 0 && com.Args[0] == v && shared {
+					return "elements of " + noun + " are overwritten by appending to a re-slice of it at " + c.ipos(x)
+				}
+				if bi.Name() == "append" && len(com.Args) > 0 && com.Args[0] == v {
+					// the result still starts with the same elements: follow it as an alias
+					if val, ok := x.(ssa.Value); ok {
+						if why := c.sliceMutation(val, depth, seen, sub); why != "" {
+							return why
+						}
+					}
 				}
 				continue
 			}
 			n := calleeName(com)
 			if strings.HasPrefix(n, "sort.") || strings.HasPrefix(n, "math/rand") {
-				return "the run order is re-ordered by " + n + " at " + c.ipos(x)
+				return noun + " is re-ordered by " + n + " at " + c.ipos(x)
 			}
 			if strings.HasPrefix(n, "slices.") {
 				base := strings.TrimPrefix(n, "slices.")
@@ -1024,14 +1053,14 @@ func (c *Ctx) sliceMutation(v ssa.Value, depth int, seen map[ssa.Value]bool) str
 					base = base[:i]
 				}
 				if !readers[base] {
-					return "the run order is re-ordered by " + n + " at " + c.ipos(x)
+					return noun + " is re-ordered by " + n + " at " + c.ipos(x)
 				}
 				continue
 			}
 			if callee := com.StaticCallee(); callee != nil && inModule(callee) && len(callee.Blocks) > 0 && depth > 0 && !com.IsInvoke() {
 				for i, a := range com.Args {
 					if a == v && i < len(callee.Params) {
-						if why := c.sliceMutation(callee.Params[i], depth-1, seen); why != "" {
+						if why := c.sliceMutation(callee.Params[i], depth-1, seen, sub); why != "" {
 							return why
 						}
 					}
